@@ -148,6 +148,38 @@ theorem runOnChunk_safe_real_full (env : Env) (hd : DictOK env) (hc : CanonOK en
   runOnChunkGo_okh (orderedShort_hyp env) _ (matcher_okh (orderedShort_hyp env) env p (side_full env hd hc p hw)) f src hf
     chunk ⟨ho, hs⟩ 0
 
+/-! ## the chunk iterators the rule models run over -/
+
+/-- **the Tok-level `iter_chunks` / `iter_sentences` / `iter_paragraphs` of `Model/Chunks.lean`** (the ones the rule models
+`ruleMapPhrase`, `ruleProperNoun`, … iterate over) partition the token vector too: the pieces, concatenated, are the tokens —
+nothing lost, duplicated or reordered (`iterSplit_flatten` of `Props/C01Pattern.lean` is about the kind-code model) -/
+theorem split_flatten (term : Kind → Bool) (toks : List Tok) : (Chunks.split term toks).flatten = toks := by
+  have key : ∀ (toks cur : List Tok), (splitGo term cur toks).flatten = cur.reverse ++ toks := by
+    intro toks
+    induction toks with
+    | nil =>
+      intro cur
+      unfold splitGo
+      cases cur <;> simp
+    | cons t ts ih =>
+      intro cur
+      unfold splitGo
+      split
+      · simp [ih []]
+      · rw [ih (t :: cur)]; simp
+  unfold Chunks.split
+  split
+  · rename_i h; simp at h; simp [h]
+  · simpa using key toks []
+
+theorem iterChunks_tok_flatten (toks : List Tok) : (Chunks.iterChunks toks).flatten = toks := split_flatten _ _
+theorem iterSentences_tok_flatten (toks : List Tok) : (Chunks.iterSentences toks).flatten = toks := split_flatten _ _
+theorem iterParagraphs_tok_flatten (toks : List Tok) : (Chunks.iterParagraphs toks).flatten = toks := split_flatten _ _
+
+/-- e.g. the tokens of `ab,cd.e`: a comma and a period close their chunks, the trailing word is a chunk of its own -/
+example : Chunks.iterChunks [⟨⟨0, 2⟩, .word⟩, ⟨⟨2, 3⟩, .punct .Comma⟩, ⟨⟨3, 5⟩, .word⟩, ⟨⟨5, 6⟩, .punct .Period⟩, ⟨⟨6, 7⟩, .word⟩] =
+    [[⟨⟨0, 2⟩, .word⟩, ⟨⟨2, 3⟩, .punct .Comma⟩], [⟨⟨3, 5⟩, .word⟩, ⟨⟨5, 6⟩, .punct .Period⟩], [⟨⟨6, 7⟩, .word⟩]] := by decide
+
 /-! ## the trees of the shipped tables are `plain` -/
 
 /-- `ExactPhrase::from_document` builds a sequence of `AnyCapitalization`, `WhitespacePattern` and kind
@@ -208,5 +240,132 @@ def sampleTree : RPat :=
 
 example : sampleTree.plain = true := by decide
 example : sampleTree.matcher env0 srcIntact toksIntact = .ok 8 := by decide
+
+/-! ## non-vacuity, continued (w22 audit): every hypothesis-carrying theorem of this file at a concrete, non-trivial value
+
+(the values `srcIntact`, `toksIntact` are defined above, so these stand here and not next to their theorems) -/
+
+/-- `InText srcIntact toksIntact`, by name (the `example` above cannot be referred to) -/
+theorem inText_intact : InText srcIntact toksIntact := by
+  intro t ht
+  simp only [toksIntact, List.mem_cons, List.mem_nil_iff, or_false] at ht
+  rcases ht with rfl | rfl | rfl | rfl | rfl | rfl | rfl | rfl <;> exact ⟨by decide, by decide⟩
+
+/-- non-vacuity of `anyCapitalization_contract`, `wordSet_contract`, `leaf_contract`: the hypothesis `… = .ok n` with `n ≠ 0` -/
+example : anyCapAtom ['i', 'n'] srcIntact (toksIntact.drop 2) = .ok 1 ∧
+    wordSetAtom [['w', 'e'], ['i']] srcIntact toksIntact = .ok 1 ∧
+    (Leaf.exactWord ['I', 'n']).matcher env0 srcIntact (toksIntact.drop 2) = .ok 1 := by decide
+
+/-- non-vacuity of `withinEditDistance_contract`, `similarToPhrase_contract`: `Im` is within distance 1 of `In`; the fuzzy
+sequence matches three tokens where the exact one matches none -/
+example : withinEditAtom env0 ['i', 'm'] 1 srcIntact (toksIntact.drop 2) = .ok 1 ∧
+    (RPat.similar (.seq (.cons (.leaf (.anyCap ['i', 'm'])) (.cons (.leaf .whitespace) (.cons (.leaf (.anyCap ['t', 'a', 'c', 't'])) .nil))))
+      (.seq (.cons (.leaf (.withinEdit ['i', 'm'] 1)) (.cons (.leaf .whitespace) (.cons (.leaf (.withinEdit ['t', 'a', 'c', 't'] 1)) .nil))))).matcher
+      env0 srcIntact (toksIntact.drop 2) = .ok 3 := by decide
+
+/-- non-vacuity of `nominalPhrase_contract`, `impliesQuantity_contract`: with `We` a determiner and every other word a
+nominal, `We In` is a nominal phrase of three tokens and `We` implies a quantity -/
+example : nominalPhraseAtom { env0 with wordFlags := fun w => if w = ['W', 'e'] then 32784 else 32832 } srcIntact toksIntact = .ok 3 ∧
+    impliesQuantityAtom { env0 with wordFlags := fun w => if w = ['W', 'e'] then 32784 else 32832 } srcIntact toksIntact = .ok 1 := by
+  decide
+
+/-- non-vacuity of `leaf_total`: a plain leaf on the in-text tokens of `We In  tact now.` -/
+example : ∃ n, (Leaf.anyCap ['w', 'e']).matcher env0 srcIntact toksIntact = .ok n ∧ n ≤ toksIntact.length :=
+  leaf_total env0 (.anyCap ['w', 'e']) rfl srcIntact toksIntact inText_intact
+
+/-- non-vacuity of `withinEditDistance_total`: its three hypotheses together, and the theorem applied -/
+example : ∃ n, withinEditAtom env0 ['i', 'm'] 1 srcIntact toksIntact = .ok n ∧ n ≤ toksIntact.length :=
+  withinEditDistance_total env0 ['i', 'm'] 1 (by decide) srcIntact toksIntact inText_intact (by unfold ShortWords; decide)
+
+/-- non-vacuity of `withinEditDistance_panics_long`, applied: a word token of 256 letters meets its three hypotheses -/
+example : withinEditAtom env0 ['a'] 1 (List.replicate 256 'a') [⟨⟨0, 256⟩, .word⟩] = .error .assertFail := by
+  have h : ∀ n, (toLowerCow env0 (textOf (List.replicate n 'a') ⟨0, n⟩)).length = n := by
+    intro n
+    simp [textOf, toLowerCow, env0]
+  refine withinEditDistance_panics_long env0 _ _ _ _ [] rfl ⟨Nat.zero_le _, ?_⟩ ?_
+  · show 256 ≤ (List.replicate 256 'a').length
+    rw [List.length_replicate]; exact Nat.le_refl _
+  · show 255 < (toLowerCow env0 (textOf (List.replicate 256 'a') ⟨0, 256⟩)).length
+    rw [h]; decide
+
+/-- non-vacuity of `matches_safe_real` and `runOnChunk_safe_real`, applied: `sampleTree` (plain) with `MapPhraseLinter`'s
+`match_to_lint`, which is total on in-text slices (`mapPhraseMatch_ok`) -/
+example : ∃ ls, runOnChunkGo (sampleTree.matcher env0) (mapPhraseMatch env0 [['x']]) srcIntact 0 toksIntact = .ok ls ∧
+    ∀ x ∈ ls, LintOK srcIntact.length x :=
+  runOnChunk_safe_real env0 sampleTree (by decide) _ srcIntact
+    (fun l _ hl => mapPhraseMatch_ok env0 [['x']] srcIntact l hl) toksIntact inText_intact
+
+/-- … and what it computes: one lint over the whole of `We In  tact now.` -/
+example : runOnChunkGo (sampleTree.matcher env0) (mapPhraseMatch env0 [['x']]) srcIntact 0 toksIntact =
+    .ok [⟨⟨0, 16⟩, [.replaceWith ['X']], 13, 0⟩] := by decide
+
+/-- non-vacuity of `exactPhrases_plain`: `MapPhraseLinter::new_exact_phrases(["in tact"])` -/
+example : exactPhrasesOf env0 [phIntact] =
+    some (.either (.cons (.seq (.cons (.leaf (.anyCap ['i', 'n'])) (.cons (.leaf .whitespace) (.cons (.leaf (.anyCap ['t', 'a', 'c', 't'])) .nil)))) .nil)) := by
+  rfl
+
+/-- **non-vacuity of `matches_safe_real_full`, `matches_safe_real_side`, `splitCompoundWord_total`, `isNotTitleCase_total`,
+`runOnChunk_safe_real_full`** — `DictOK`, `CanonOK`, `WordsShort`, `Ord`, `ShortWords` TOGETHER and none of them trivially:
+a dictionary that knows `Intact` (a noun) and the proper noun `tact` (canonical form `Tact`); a tree with all three demanding
+patterns — `SplitCompoundWord`, `IsNotTitleCase` around the phrase `in tact`, `SimilarToPhrase` of `im tact` — and the tiling
+tokens of `We In  tact now.`; each of the three branches matches the three tokens `In  tact`, and `run_on_chunk` reports them.
+(`C12.env0`, used above, knows no word: there `DictOK` and `CanonOK` hold for want of any entry.) -/
+theorem full_witness : ∃ (env : Env) (p : RPat) (src : List Char) (toks : List Tok),
+    DictOK env ∧ CanonOK env ∧ WordsShort env p ∧ Rules.Ord src.length toks ∧ ShortWords env src toks ∧ Tiles toks 0 src.length ∧
+    p.plain = false ∧
+    (RPat.leaf (.splitCompound 8)).matcher env src (toks.drop 2) = .ok 3 ∧
+    (RPat.notTitleCase (.seq (.cons (.leaf (.anyCap ['i', 'n'])) (.cons (.leaf .whitespace) (.cons (.leaf (.anyCap ['t', 'a', 'c', 't'])) .nil))))).matcher
+      env src (toks.drop 2) = .ok 3 ∧
+    p.matcher env src (toks.drop 2) = .ok 3 ∧ p.matcher env src toks = .ok 0 ∧
+    runOnChunkGo (p.matcher env) (mapPhraseMatch env [['i', 'n', 't', 'a', 'c', 't']]) src 0 toks =
+      .ok [⟨⟨3, 11⟩, [.replaceWith ['I', 'n', 't', 'a', 'c', 't']], 13, 0⟩] := by
+  refine ⟨{ env0 with
+      wordFlags := fun w => if w = ['I', 'n', 't', 'a', 'c', 't'] then 33024 else if w = ['t', 'a', 'c', 't'] then 32800 else 0
+      canonical := fun w => if w = ['I', 'n', 't', 'a', 'c', 't'] then some ['I', 'n', 't', 'a', 'c', 't']
+        else if w = ['t', 'a', 'c', 't'] then some ['T', 'a', 'c', 't'] else none },
+    .either (.cons (.leaf (.splitCompound 8))
+      (.cons (.notTitleCase (.seq (.cons (.leaf (.anyCap ['i', 'n'])) (.cons (.leaf .whitespace) (.cons (.leaf (.anyCap ['t', 'a', 'c', 't'])) .nil)))))
+      (.cons (.similar (.seq (.cons (.leaf (.anyCap ['i', 'm'])) (.cons (.leaf .whitespace) (.cons (.leaf (.anyCap ['t', 'a', 'c', 't'])) .nil))))
+        (.seq (.cons (.leaf (.withinEdit ['i', 'm'] 1)) (.cons (.leaf .whitespace) (.cons (.leaf (.withinEdit ['t', 'a', 'c', 't'] 1)) .nil))))) .nil))),
+    srcIntact, toksIntact, ?_, ?_, ?_, ?_, ?_, ?_, ?_, ?_, ?_, ?_, ?_, ?_⟩
+  · intro w h
+    dsimp only at h ⊢
+    split
+    · simp
+    · split
+      · simp
+      · rename_i h1 h2; simp [h1, h2] at h; revert h; decide
+  · intro w c h
+    dsimp only at h
+    split at h
+    · cases h; subst_vars; decide
+    · split at h
+      · cases h; subst_vars; decide
+      · cases h
+  · simp only [WordsShort, WordsShortL, Leaf.wordsShort, and_true, true_and]
+    decide
+  · unfold Rules.Ord; decide
+  · unfold ShortWords; decide
+  all_goals decide
+
+/-- the five theorems applied to that value: their hypotheses are exactly what `full_witness` provides -/
+example : ∃ (env : Env) (p : RPat) (src : List Char) (toks : List Tok), p.plain = false ∧
+    (∃ n, p.matcher env src toks = .ok n ∧ n ≤ toks.length) ∧
+    (∃ n, splitCompoundAtom env 8 src toks = .ok n ∧ n ≤ toks.length) ∧
+    (∃ n, (RPat.notTitleCase (.leaf .any)).matcher env src toks = .ok n ∧ n ≤ toks.length) ∧
+    (∃ ls, runOnChunkGo (p.matcher env) (mapPhraseMatch env [['x']]) src 0 toks = .ok ls ∧ ∀ x ∈ ls, LintOK src.length x) := by
+  obtain ⟨env, p, src, toks, hd, hc, hw, ho, hs, _, hp, _⟩ := full_witness
+  exact ⟨env, p, src, toks, hp,
+    matches_safe_real_side (orderedShort_hyp env) env p (side_full env hd hc p hw) src toks ⟨ho, hs⟩,
+    splitCompoundWord_total env 8 hd src toks (inOrder_hyp.inb src toks ho),
+    isNotTitleCase_total env hc (.leaf .any) rfl src toks ho,
+    runOnChunk_safe_real_full env hd hc p hw _ src
+      (fun l _ hl => mapPhraseMatch_ok env [['x']] src l ((orderedShort_hyp env).inb src l hl)) toks ho hs⟩
+
+example : ∃ (env : Env) (p : RPat) (src : List Char) (toks : List Tok) (n : Nat), p.plain = false ∧
+    p.matcher env src toks = .ok n ∧ n ≤ toks.length := by
+  obtain ⟨env, p, src, toks, hd, hc, hw, ho, hs, _, hp, _⟩ := full_witness
+  obtain ⟨n, h1, h2⟩ := matches_safe_real_full env hd hc p hw src toks ho hs
+  exact ⟨env, p, src, toks, n, hp, h1, h2⟩
 
 end Harper.C01
